@@ -171,7 +171,14 @@ fn judge(obs: String, resp: Option<Response>, expect: &str) -> (String, String) 
 fn recv_case(rc: &RCfg, from: Option<IpAddr>, bytes: &[u8], expect: &str, out: &mut Out) {
     let input = format!("recv {} {} {} {}", rc.render(), from.map_or("-".to_string(), |a| hex(&addr_bytes(a))), hex(bytes), expect);
     let (obs, resp) = recv_real(rc, from, bytes);
-    let (o, v) = judge(obs, resp, expect);
+    let (o, mut v) = judge(obs, resp, expect);
+    // C08: the bound "max round duration + one read timeout" rests on recv_probe waiting at most once and reading at most
+    // one datagram per call, whatever the datagram is
+    let (ns, nr) = sim::with(|w| (w.n_select, w.n_read));
+    if ns > 1 || nr > 1 {
+        let m = format!("C08:one_recv_probe_call_waited_{ns}_times_and_read_{nr}_datagrams");
+        v = if v == "ok" { format!("FAIL:{m}") } else { format!("{v};{m}") };
+    }
     out.case(&input, &o, &v);
 }
 
@@ -723,9 +730,10 @@ fn recvseq_case(rc: &RCfg, from: Option<IpAddr>, list: &[Vec<u8>], tag: &str, ou
         let mut ch = match Channel::<SimSocket>::connect(&rc.channel_config(84, 0, 33434)) { Ok(c) => c, Err(e) => return vec![format!("err:{}", ErrK::of(&e).tok())] };
         let mut v = vec![];
         for b in list {
-            sim::with(|w| w.readyq.push_back((b.clone(), from.map(|a| SocketAddr::new(a, 0)))));
+            sim::with(|w| { w.readyq.push_back((b.clone(), from.map(|a| SocketAddr::new(a, 0)))); w.n_select = 0; w.n_read = 0; });
             let (o, _) = observe(catch_unwind(AssertUnwindSafe(|| ch.recv_probe())));
-            v.push(o);
+            let (ns, nr) = sim::with(|w| (w.n_select, w.n_read));
+            v.push(if ns > 1 || nr > 1 { format!("{o}!waits{ns}reads{nr}") } else { o });
         }
         v
     }));
@@ -773,7 +781,7 @@ fn tcpseq_case(rc: &RCfg, timeout_ms: u64, ops: &[String], out: &mut Out) {
         for op in ops {
             let op = op.split('@').next().unwrap().to_string();
             let op = &op;
-            stamped.borrow_mut().push(if op.starts_with('T') { op.clone() } else { format!("{op}@{}", crate::vclock::now() - crate::vclock::BASE_NS) });
+            stamped.borrow_mut().push(if op.starts_with('T') || op.starts_with('Q') { op.clone() } else { format!("{op}@{}", crate::vclock::now() - crate::vclock::BASE_NS) });
             match op.as_bytes()[0] {
                 b'S' => {
                     let t: Vec<&str> = op[1..].split('.').collect();
@@ -785,6 +793,13 @@ fn tcpseq_case(rc: &RCfg, timeout_ms: u64, ops: &[String], out: &mut Out) {
                     v.push(match r { Ok(()) => "sent".to_string(), Err(e) => format!("err:{}", ErrK::of(&e).tok()) });
                 }
                 b'T' => { crate::vclock::advance(op[1..].parse().unwrap()); v.push("t".to_string()); }
+                b'Q' => {
+                    // an ICMP datagram arrives on the receive socket: Q<from hex or ->:<bytes hex>
+                    let (f, b) = op[1..].split_once(':').unwrap();
+                    let from = if f == "-" { None } else { Some(SocketAddr::new(addr_from(&unhex(f)), 0)) };
+                    sim::with(|w| w.readyq.push_back((unhex(b), from)));
+                    v.push("q".to_string());
+                }
                 _ => { let (o, _) = observe(catch_unwind(AssertUnwindSafe(|| ch.recv_probe()))); v.push(o); }
             }
         }
@@ -798,11 +813,13 @@ fn tcpseq_case(rc: &RCfg, timeout_ms: u64, ops: &[String], out: &mut Out) {
     let mut fails = vec![];
     let mut reported: Vec<(String, String)> = vec![];
     let sent: Vec<(String, String, String)> = ops.iter().filter(|o| o.starts_with('S')).map(|o| { let o = o.split('@').next().unwrap(); let t: Vec<&str> = o[1..].split('.').collect(); (t[0].to_string(), t[1].to_string(), t[2].to_string()) }).collect();
+    let any_queued = ops.iter().any(|o| o.starts_with('Q'));
     for o in &obs {
         if o == "fault:panic" { fails.push("C04:panic:tcp_socket_array".to_string()); }
         let t: Vec<&str> = o.split('/').collect();
         if let Some(k) = t.iter().position(|x| *x == "t") {
-            if t.len() > k + 3 {
+            // (reports read from the ICMP socket name the ports of the quoted probe, which was not dispatched in this line)
+            if t.len() > k + 3 && (o.starts_with("tf/") || !any_queued) {
                 let key = (t[k + 2].to_string(), t[k + 3].to_string());
                 if reported.contains(&key) { fails.push(format!("C02:tcp_probe_{}_{}_reported_twice", key.0, key.1)); }
                 if !sent.iter().any(|(sp, dp, oc)| *sp == key.0 && *dp == key.1 && oc != "pending") { fails.push(format!("C02:tcp_response_for_ports_{}_{}_that_no_answered_probe_used", key.0, key.1)); }
@@ -810,7 +827,37 @@ fn tcpseq_case(rc: &RCfg, timeout_ms: u64, ops: &[String], out: &mut Out) {
             }
         }
     }
+    // every datagram that arrived on the ICMP socket is still consumed by exactly one receive call that found no TCP socket
+    // ready: with enough trailing receive calls nothing may be left queued, and as many reports carry an ICMP kind as
+    // quotations of own probes arrived
+    let queued = ops.iter().filter(|o| o.starts_with('Q')).count();
+    let trailing_r = ops.iter().rev().take_while(|o| o.starts_with('R')).count();
+    let left = sim::with(|w| w.readyq.len());
+    let icmp_reports = obs.iter().filter(|o| (o.starts_with("te/") || o.starts_with("du/")) && !o.contains("/t/")).count()
+        + obs.iter().filter(|o| (o.starts_with("te/") || o.starts_with("du/")) && o.contains("/t/")).count();
+    let socket_reports = sent.iter().filter(|(_, _, oc)| oc.starts_with("unreach")).count();
+    if queued > 0 && obs.first().map_or(true, |o| !o.starts_with("err:")) && !obs.iter().any(|o| o == "fault:panic") && trailing_r >= queued + sent.len() + 1 {
+        if left != 0 { fails.push(format!("C02:{left}_of_{queued}_arrived_datagrams_never_read")); }
+        if icmp_reports + socket_reports < queued && icmp_reports < queued { fails.push(format!("C02:only_{icmp_reports}_reports_for_{queued}_quotations_of_own_probes_that_arrived")); }
+    }
     out.case(&input, &obs.join("|"), &if fails.is_empty() { "ok".to_string() } else { format!("FAIL:{}", fails.join(";")) });
+}
+
+
+/// two datagrams are waiting, the first one is not a probe response: ONE recv_probe call consumes one datagram and returns
+fn twoqueued_case(rc: &RCfg, from: Option<IpAddr>, first: &[u8], second: &[u8], out: &mut Out) {
+    let input = format!("recv2 {} {} {} {}", rc.render(), from.map_or("-".to_string(), |a| hex(&addr_bytes(a))), hex(first), hex(second));
+    let (obs, _) = observe(catch_unwind(AssertUnwindSafe(|| {
+        sim::reset();
+        let mut ch = Channel::<SimSocket>::connect(&rc.channel_config(84, 0, 33434))?;
+        sim::with(|w| { for b in [first, second] { w.readyq.push_back((b.to_vec(), from.map(|a| SocketAddr::new(a, 0)))); } });
+        ch.recv_probe()
+    })));
+    let (ns, nr, left) = sim::with(|w| (w.n_select, w.n_read, w.readyq.len()));
+    let mut fails = vec![];
+    if obs == "fault:panic" { fails.push("C04:panic:two_queued_datagrams".to_string()); }
+    if ns > 1 || nr > 1 || left != 1 { fails.push(format!("C08:one_recv_probe_call_waited_{ns}_times_read_{nr}_datagrams_left_{left}_queued")); }
+    out.case(&input, &format!("{obs} left={left}"), &if fails.is_empty() { "ok".to_string() } else { format!("FAIL:{}", fails.join(";")) });
 }
 
 pub fn run(args: &Args, out: &mut Out) {
@@ -826,6 +873,7 @@ pub fn run(args: &Args, out: &mut Out) {
                     recvseq_case(&rc, from, &list, t.get(4).copied().unwrap_or("-"), out);
                 }
                 "tcpseq" => tcpseq_case(&RCfg::parse(t[1]), t[2].parse().unwrap(), &t[3].split(',').map(ToString::to_string).collect::<Vec<_>>(), out),
+                "recv2" => twoqueued_case(&RCfg::parse(t[1]), if t[2] == "-" { None } else { Some(addr_from(&unhex(t[2]))) }, &unhex(t[3]), &unhex(t[4]), out),
                 "sockerr" => sockerr_case(&RCfg::parse(t[1]), t[2], out),
                 "tcpsock" => tcp_case(&RCfg::parse(t[1]), &parse_outcome(t[2]), t[3].parse().unwrap(), t[4].parse().unwrap(), t.get(5).copied().unwrap_or("-"), out),
                 "probe" => probe_case(&RCfg::parse(t[1]), t[2].parse().unwrap(), t[3].parse().unwrap(), t[4].parse().unwrap(), t[5].parse().unwrap(), t[6].parse().unwrap(),
@@ -1093,11 +1141,20 @@ pub fn run(args: &Args, out: &mut Out) {
                             ops.push(format!("S{sp}.{dp}.{oc}"));
                         }
                         2 => ops.push(format!("T{}", *rng.pick(&[1_000u64, 900_000, 1_000_000, 4_999_999, 5_000_000, 6_000_000, 2_000_000_000]))),
+                        3 if rng.chance(1, 2) => {
+                            // a router's Time Exceeded / Unreachable quoting one of this tracer's TCP probes arrives on the ICMP socket
+                            let seq = 33434 + rng.below(50) as u16;
+                            let id = ident(c, 0, 33434, seq);
+                            let d = probe_dgram(c, &rc, &id, 1 + rng.below(5) as u8, 0, 60, &mut rng);
+                            let peer = rand_peer(&mut rng, c, &rc, d.len());
+                            let (b, _) = quote(c.v6, &addr_bytes(rc.src), &peer, &d);
+                            let from = if c.v6 { hex(&peer.router) } else { "-".to_string() };
+                            ops.push(format!("Q{from}:{}", hex(&b)));
+                        }
                         _ => ops.push("R".to_string()),
                     }
                 }
-                ops.push("R".to_string());
-                ops.push("R".to_string());
+for _ in 0..ops.len() + 2 { ops.push("R".to_string()); }
                 tcpseq_case(&rc, timeout_ms, &ops, out);
                 n += 1;
             }
@@ -1113,6 +1170,17 @@ pub fn run(args: &Args, out: &mut Out) {
             }
         }
         out.stat("tcp_socket_array_sequences", &n.to_string());
+    }
+
+    // ---- an unrelated datagram in front of a genuine response: one recv_probe call, one datagram (every cell)
+    for c in &all {
+        for _ in 0..(if thorough { 20 } else { 2 }) {
+            let (rc, b, from, _expect, _offs, _d, _peer, _id) = valid_response(&mut rng, c);
+            // an ICMP message that is nobody's probe response: echo request to this host (IPv4 carries the IP header)
+            let noise: Vec<u8> = if c.v6 { echo(128, 9, 9, &[0u8; 8], Some(&pseudo(&addr_bytes(rc.dst), &addr_bytes(rc.src), 58, 16))) }
+                else { let e = echo(8, 9, 9, &[0u8; 8], None); let mut v = ip4_hdr(0, (20 + e.len()) as u16, 1, 64, 1, &addr_bytes(rc.dst), &addr_bytes(rc.src), &[]); v.extend(e); v };
+            twoqueued_case(&rc, from, &noise, &b, out);
+        }
     }
 
     // ---- (ii) fully random bytes (random lengths, plus ICMP-looking prefixes)
